@@ -1160,3 +1160,162 @@ Proof.
     apply witness_oracle_ok; [apply pow2_8|lia|lia].
   - vm_compute. auto.
 Qed.
+
+(* ---------------------------------------------------------------- shared variant: one exclusive resource per thread *)
+Section Shared.
+Variable P : Z.
+Hypothesis Pok : exists k, 7 <= k <= 32 /\ P = 2 ^ k.
+
+(* every page / upstream block an allocation obtains is one of the oracle's answers *)
+Definition ev_src (s : st) (b a : Z) (o : oracle) (e : list ev) : Prop :=
+  (forall p, In p (ev_pages e) -> p = o1 o \/ p = o2 o) /\
+  (forall u p b0 a0, In (u, p, b0, a0) (ev_ups e) -> p = ou o /\ b0 = fst (up_request s b a)).
+
+Ltac src_done := unfold ev_src; cbn; split;
+  [intros p Hin; cbn in Hin; unfold In in Hin; intuition congruence
+  |intros u p b0 a0 Hin; cbn in Hin; unfold In in Hin; intuition congruence].
+
+Lemma oversize_src : forall s b a o s' r e, alloc_oversize s b a o = (s', r, e) -> ev_src s b a o e.
+Proof.
+  intros s b a o s' r e H. unfold alloc_oversize in H. unfold ev_src, up_request.
+  destruct (has_oversize_slot (otop s)); injection H as Hs Hr He; subst s' e; src_done.
+Qed.
+
+Lemma new_array_src : forall s sx bx ax b page o s' r e, alloc_new_array P s b page o = (s', r, e) ->
+  ev_src sx bx ax o e.
+Proof.
+  intros s sx bx ax b page o s' r e H. unfold alloc_new_array in H.
+  destruct (old_tail_fits _ _); [|destruct (new_tail_fits _ _)]; injection H as Hs Hr He; subst s' e; src_done.
+Qed.
+
+Lemma new_page_src : forall s b a o s' r e, alloc_new_page P s b a o = (s', r, e) -> ev_src s b a o e.
+Proof.
+  intros s b a o s' r e H. unfold alloc_new_page in H.
+  destruct (page_path b a P); [|eapply oversize_src; eauto].
+  cbn in H. destruct (has_page_slot (ptop s)).
+  - injection H as Hs Hr He; subst s' e; src_done.
+  - destruct (alloc_new_array P _ b (o1 o) o) as [[s2 r2] e2] eqn:E.
+    injection H as Hs Hr He; subst s' e. apply (new_array_src _ s b a) in E. destruct E as [E1 E2].
+    split; [|exact E2]. intros p [Hp|Hp]; [left; congruence|apply E1; exact Hp].
+Qed.
+
+Lemma core_src : forall s b a o s' r e, alloc_core P s b a o = (s', r, e) -> ev_src s b a o e.
+Proof.
+  intros s b a o s' r e H. unfold alloc_core in H. cbn in H.
+  destruct (fast_fits _ _).
+  - injection H as Hs Hr He; subst s' e; src_done.
+  - apply new_page_src in H. exact H.
+Qed.
+
+Definition op_regions (s : st) (o : op) : list iv :=
+  match o with
+  | Alloc b a orc => [(o1 orc, P); (o2 orc, P); (ou orc, fst (up_request s b a))]
+  | Reg _ _ orc => [(o1 orc, P); (o2 orc, P); (ou orc, fst (up_request s SIZEOF_DESTROY_ARRAY ALIGNOF_DESTROY_ARRAY))]
+  | _ => []
+  end.
+
+Lemma core_regions : forall s b a o s' r e, alloc_core P s b a o = (s', r, e) ->
+  incl (regions P s') (regions P s ++ [(o1 o, P); (o2 o, P); (ou o, fst (up_request s b a))]).
+Proof.
+  intros s b a o s' r e H. destruct (core_src _ _ _ _ _ _ _ H) as [S1 S2].
+  destruct (core_ghost P _ _ _ _ _ _ _ H) as (G1 & G2 & _).
+  intros rg Hin. unfold regions in *. rewrite G1, G2 in Hin. rewrite !map_app in Hin.
+  apply in_app_iff. rewrite !in_app_iff in Hin. rewrite !in_app_iff.
+  destruct Hin as [[Hin|Hin]|[Hin|Hin]]; auto.
+  - right. apply in_map_iff in Hin. destruct Hin as (p & <- & Hp). apply in_rev in Hp.
+    destruct (S1 p Hp) as [->| ->]; unfold page_iv, In; auto.
+  - right. apply in_map_iff in Hin. destruct Hin as ([[[u p] b0] a0] & <- & Hp). apply in_rev in Hp.
+    destruct (S2 _ _ _ _ Hp) as [-> ->]. unfold up_iv, In; auto.
+Qed.
+
+Lemma step_regions : forall s o s' r e, step P s o = (s', r, e) ->
+  incl (regions P s') (regions P s ++ op_regions s o).
+Proof.
+  intros s o s' r e H. destruct o as [b a orc|ptr fn orc|ptr| | |]; cbn in H.
+  - unfold do_alloc in H. destruct (alloc_core P s b a orc) as [[s1 r1] e1] eqn:E.
+    injection H as Hs Hr He; subst s'. apply core_regions in E. exact E.
+  - unfold do_reg in H. destruct (has_destroy_slot (dtop s)).
+    + injection H as Hs Hr He; subst s'. intros rg Hin. apply in_app_iff. left. exact Hin.
+    + destruct (alloc_core P s _ _ orc) as [[s1 r1] e1] eqn:E.
+      injection H as Hs Hr He; subst s'. apply core_regions in E. exact E.
+  - injection H as Hs Hr He; subst s'. intros rg Hin. apply in_app_iff. left. exact Hin.
+  - unfold do_release in H. destruct (match parrs s with [] => _ | _ => _ end).
+    injection H as Hs Hr He; subst s'. intros rg [].
+  - injection H as Hs Hr He; subst s'. intros rg Hin. apply in_app_iff. left. exact Hin.
+  - injection H as Hs Hr He; subst s'. intros rg Hin. apply in_app_iff. left. exact Hin.
+Qed.
+
+(* the shared resource: thread t owns the t-th exclusive resource; threads appear at any time *)
+Fixpoint upd {A} (t : nat) (x : A) (l : list A) : list A :=
+  match l, t with
+  | [], _ => []
+  | _ :: r, O => x :: r
+  | y :: r, S t' => y :: upd t' x r
+  end.
+
+Lemma nth_upd : forall {A} (l : list A) t u x y, nth_error (upd t x l) u = Some y ->
+  (u = t /\ y = x) \/ (u <> t /\ nth_error l u = Some y).
+Proof.
+  induction l as [|z l IH]; intros t u x y H; destruct t, u; cbn in *; try discriminate; auto.
+  - injection H as ->. auto.
+  - destruct (IH _ _ _ _ H) as [[-> ->]|[Hn Hy]]; auto.
+Qed.
+
+Inductive sreach : list st -> Prop :=
+| sreach_nil : sreach []
+| sreach_spawn : forall S, sreach S -> sreach (S ++ [init])
+| sreach_step : forall S t s o, sreach S -> nth_error S t = Some s -> op_ok P s o ->
+    (* the allocators are shared: their answers are fresh for every thread's resource *)
+    (forall u su, u <> t -> nth_error S u = Some su ->
+       Forall (fun rg => Forall (disj rg) (regions P su)) (op_regions s o)) ->
+    sreach (upd t (fst (fst (step P s o))) S).
+
+Definition cross (S : list st) : Prop :=
+  forall t u st su, t <> u -> nth_error S t = Some st -> nth_error S u = Some su ->
+  forall r r', In r (regions P st) -> In r' (regions P su) -> disj r r'.
+
+Lemma sreach_inv : forall S, sreach S -> (forall t s, nth_error S t = Some s -> reach P s) /\ cross S.
+Proof.
+  induction 1 as [|S R [IH1 IH2]|S t s o R [IH1 IH2] Ht Hok Hfr].
+  - split; [intros [|t] s H; discriminate|intros [|t] u st su _ H; discriminate].
+  - assert (N : forall t s, nth_error (S ++ [init]) t = Some s -> nth_error S t = Some s \/ s = init).
+    { intros t s H. destruct (Nat.lt_ge_cases t (length S)).
+      - left. rewrite nth_error_app1 in H by assumption. exact H.
+      - right. rewrite nth_error_app2 in H by assumption. destruct (t - length S)%nat as [|[|k]]; cbn in H; congruence. }
+    split.
+    + intros t s H. destruct (N _ _ H) as [H'| ->]; [exact (IH1 _ _ H')|constructor].
+    + intros t u st su Hn H1 H2 r r' Hr Hr'.
+      destruct (N _ _ H1) as [H1'| ->]; [|destruct Hr].
+      destruct (N _ _ H2) as [H2'| ->]; [|destruct Hr'].
+      exact (IH2 _ _ _ _ Hn H1' H2' _ _ Hr Hr').
+  - destruct (step P s o) as [[s' res] e] eqn:E. cbn. pose proof (step_regions _ _ _ _ _ E) as Hincl. split.
+    + intros u x H. destruct (nth_upd _ _ _ _ _ H) as [[-> ->]|[Hn Hx]]; [|exact (IH1 _ _ Hx)].
+      replace s' with (fst (fst (step P s o))) by (rewrite E; reflexivity).
+      apply reach_step; [exact (IH1 _ _ Ht)|exact Hok].
+    + assert (New : forall u su r r', u <> t -> nth_error S u = Some su -> In r (regions P s') -> In r' (regions P su) -> disj r r').
+      { intros u su r r' Hn Hu Hr Hr'. apply Hincl in Hr. apply in_app_iff in Hr. destruct Hr as [Hr|Hr].
+        - exact (IH2 t u s su (fun h => Hn (eq_sym h)) Ht Hu r r' Hr Hr').
+        - specialize (Hfr u su Hn Hu). rewrite Forall_forall in Hfr. specialize (Hfr r Hr).
+          rewrite Forall_forall in Hfr. apply Hfr. exact Hr'. }
+      intros a u sa su Hn Ha Hu r r' Hr Hr'.
+      destruct (nth_upd _ _ _ _ _ Ha) as [[-> ->]|[Hna Ha']]; destruct (nth_upd _ _ _ _ _ Hu) as [[-> ->]|[Hnu Hu']].
+      * congruence.
+      * exact (New u su r r' Hnu Hu' Hr Hr').
+      * apply disj_sym. exact (New a sa r' r Hna Ha' Hr' Hr).
+      * exact (IH2 _ _ _ _ Hn Ha' Hu' _ _ Hr Hr').
+Qed.
+
+(* blocks (and bookkeeping) handed out to different threads never overlap *)
+Theorem mr_shared_disjoint : forall S, sreach S -> forall t u st su, t <> u ->
+  nth_error S t = Some st -> nth_error S u = Some su ->
+  forall x y, In x (blocks st ++ books st) -> In y (blocks su ++ books su) -> disj x y.
+Proof.
+  intros S R t u st su Hn Ht Hu x y Hx Hy. destruct (sreach_inv S R) as [I1 I2].
+  destruct (mr_live_disjoint P Pok st (I1 _ _ Ht)) as (_ & Ox & _ & _).
+  destruct (mr_live_disjoint P Pok su (I1 _ _ Hu)) as (_ & Oy & _ & _).
+  rewrite Forall_forall in Ox, Oy. specialize (Ox x Hx). specialize (Oy y Hy).
+  destruct Ox as [Zx|(r & Hr & Ix)]; [unfold disj; lia|].
+  destruct Oy as [Zy|(r' & Hr' & Iy)]; [unfold disj; lia|].
+  exact (inside_disj _ _ _ _ Ix Iy (I2 _ _ _ _ Hn Ht Hu _ _ Hr Hr')).
+Qed.
+End Shared.
